@@ -257,3 +257,15 @@ TEXT["C03"] = {
  "note": "Not covered: AArch64 and ARMv6-M sources (cannot be executed here; Thumb-1 cannot even be assembled).  No theorem yet for the assembly multiply/square/Montgomery routines (model + exact differential tie only).  Trusted: the machine model's instruction semantics (validated against the host CPU on every run through the judge), asm2lean (cross-checked against the assembler), Lean kernel.",
  "technique": "Lean 4 proof (symbolic execution of the regenerated instruction lists in a machine model; carry-chain arithmetic; uniqueness of canonical limbs) + exact differential execution of model and real routines",
 }
+_wk_concrete = ("  CONCRETE TRANSPORT (Cxxb, Proofs/ConcreteGroups.lean): the r-torsion subgroups of the two real curves with the Spec operations are abelian groups of exponent r (transported from Mathlib's point group), "
+                "GT = r-th roots of unity in Fq12 is a group, the judge's operation records are lawful for them, the real pairing maps into GT (C01), and the model functions commute with the subtype embedding - so the theorems hold verbatim for the RAW curve points and the REAL pairing the judge runs against the C++, "
+                "with the single pairing hypothesis HBilinearFull (additivity of the textbook optimal-ate function in each argument on the r-torsion; plus HNonDegenerate for the 'only matching / only signed' directions).")
+TEXT["C11"]["level"] += _wk_concrete
+TEXT["C12"]["level"] += _wk_concrete
+TEXT["C13"]["level"] += _wk_concrete
+TEXT["C14"]["level"] += "  CONCRETE TRANSPORT (C14b): adjust_precomputed = precompute and adjust_nondelegable = direct qualification hold for raw curve points in the r-torsion with NO pairing hypothesis at all."
+TEXT["C16"]["level"] += ("  CONCRETE TRANSPORT (C16b): for the real curve points, the real pairing (ateSpec = implementation by C01) and the real encoders (injective by C09b/C15b round trips) decryption hashes exactly the 720 bytes encryption hashed, "
+                         "under C01.HBilinear only (the scalar-multiplication form of bilinearity); binding holds for curve points with no pairing hypothesis.")
+_wk_note = ("Abstract theorems: groups of exponent r with a bilinear map as explicit hypotheses (never axioms).  Concrete theorems: only HBilinearFull / HNonDegenerate (bilinearity and non-degeneracy of the textbook optimal-ate function on the r-torsion - classical, not provable with the libraries present) and membership of the parameters in the groups remain hypotheses.  "
+            "Models are hand-written mirrors of api.cpp's cursor loops, tied by the stateful correspondence (every group element of every produced object compared with the canonical value).")
+for _p in ("C11", "C12", "C13", "C14"): TEXT[_p]["note"] = _wk_note
